@@ -369,14 +369,14 @@ pub fn c08(args: &Args, rep: &mut Report) {
             // unbounded for the smallest models; otherwise iterative context bounding (bound 1 always,
             // the target bound for models that are small at bound 1 - all models in the thorough tier)
             let n = match pb {
-                // bounds 1, 2 and 3 always; without a bound if the model is small at bound 3 (always in the thorough tier)
+                // bounds 1, 2 and 3 always; without a bound if the model is small at bound 3 (150 schedules quick, 2000 thorough)
                 None => {
                     let body = std::sync::Arc::new(body);
                     let (b1, b2, b3, b4) = (body.clone(), body.clone(), body.clone(), body.clone());
                     let n1 = explore(Some(1), 20_000, move || b1());
                     let n2 = explore(Some(2), 20_000, move || b2());
                     let n3 = explore(Some(3), 20_000, move || b3());
-                    n1 + n2 + n3 + if t || n3 <= 150 { explore(None, 20_000, move || b4()) } else { 0 }
+                    n1 + n2 + n3 + if n3 <= (if t { 2000 } else { 150 }) { explore(None, 20_000, move || b4()) } else { 0 }
                 }
                 Some(b) => crate::explore_iterative(b, if t { None } else { Some(60) }, 20_000, body),
             };
